@@ -56,7 +56,7 @@ def run(tier, seed):
                 pass
         if rc == 0 and info.get("admitted", 0) < 1000:
             raise v.ToolError("vacuity: limit storm admitted only %s writes" % info.get("admitted"))
-        storms.append({"trace": t, "rc": rc, "info": info, "stderr": se[-1500:], "tag": "limitstorm_%d" % i})
+        storms.append({"trace": t, "rc": rc, "info": info, "stderr": v.clip_stderr(se, 1500), "tag": "limitstorm_%d" % i})
     collect(PROP, storms, rd, ["MemBound"], viol, cst)
     # recovery part: stores obtained by the real recovery from crash images (two generations of a key
     # with values of different lengths on the device, torn batches, retired extents)
